@@ -132,10 +132,20 @@ def run_worker(pid, tier, seed, wid, nw, budget_s, only_case=None, out=None):
       ctx._emit({'k': 'begin', 'case': n})
     try:
       mod.run_case(ctx, n)
-    except Exception:
-      # an exception escaping the harness is a harness problem, never a verdict
-      ctx._emit({'k': 'harness_error', 'case': n, 'tb': traceback.format_exc()[-3000:]})
-      ctx.count('harness_errors')
+    except Exception as ex:
+      tb = traceback.extract_tb(ex.__traceback__)
+      origin = os.path.realpath(tb[-1].filename) if tb else ''
+      if origin.startswith(os.path.join(os.path.realpath(load.ROOT), 'miros') + os.sep):
+        # raised INSIDE miros while the harness was driving a well-formed scenario and not anticipated by the check: the
+        # library failed where the unchanged tree does not - a verdict, keyed by where it was raised
+        where = '%s:%s' % (os.path.basename(origin), tb[-1].name)
+        ctx.violation('%s/miros-raises/%s/%s' % (ctx.pid, type(ex).__name__, where),
+                      'miros raised %s: %s (in %s) while the check was driving it' % (type(ex).__name__, ex, where),
+                      {'traceback_tail': traceback.format_exc()[-1500:]})
+      else:
+        # an exception raised by the harness itself is a harness problem, never a verdict
+        ctx._emit({'k': 'harness_error', 'case': n, 'tb': traceback.format_exc()[-3000:]})
+        ctx.count('harness_errors')
     ctx.ncases += 1
     if time.time() - ctx.last_flush > 2.0:
       ctx.flush()
